@@ -161,8 +161,9 @@ func (self *Analyzer) lastIsErrorAt(span errors.Span) bool {
 @*/
 
 /*@ func (self *Module) addVar
-    serves C03
-    trusted
+    serves C03, C15
+    assume-safety
+    ghostset pubImports = ghost(pubImports) + vb2i(val.Origin == ImportedVariableOriginKind && val.IsPub)
     ensures @loop-state-kept self.LoopDepth == old(self.LoopDepth) && self.CurrentLoopIsTerminated == old(self.CurrentLoopIsTerminated)
 @*/
 
@@ -222,4 +223,32 @@ func (self *Analyzer) lastIsErrorAt(span errors.Span) bool {
     loop "range methods" invariant !isImplemented ==> forall i in 0..rangeindex() :: methods[i].Ident.Ident() != reqName
     loop "range methods"#2 progress @additional-method-reported haskey(requiredMethods, method.Ident.Ident()) || len(self.diagnostics) > iterstart(len(self.diagnostics))
     loop "range requiredMethods"#2 invariant (isRequired ==> haskey(requiredMethods, method.Ident.Ident())) && (!isRequired ==> forall k string in keys(requiredMethods) :: visited(k) ==> k != method.Ident.Ident())
+@*/
+
+// ---------------------------------------------------------------------------
+// Visibility of imported names (C15): whatever an import statement registers in
+// the importing module is private to it - a module never re-exports a name it
+// has imported. ghost(pubImports) counts the variables of origin "imported"
+// that were registered as `pub`.
+
+func vb2i(b bool) int {
+	if b {
+		return 1
+	}
+	return 0
+}
+
+/*@ func (self *Analyzer) importDummyFields
+    serves C15
+    assume-safety
+    ensures @imports-stay-private ghost(pubImports) == old(ghost(pubImports))
+    loopinvariant ghost(pubImports) == entry(ghost(pubImports))
+@*/
+
+/*@ func (self *Analyzer) importItem
+    serves C15
+    assume-safety
+    assumepre TypeCheck, expression
+    ensures @imports-stay-private ghost(pubImports) == old(ghost(pubImports))
+    loopinvariant ghost(pubImports) == entry(ghost(pubImports))
 @*/
